@@ -242,6 +242,15 @@ def n1(prog, rep):
                           function=f.name, construct="send-flags")
     if not n:
         raise cdb.AnalysisBroken("N1: no send() call in network_write.c")
+    ur = prog.unit("network/network_read.c") if "network/network_read.c" in prog.units else None
+    if ur is not None:
+        for f in ur.funcs:
+            for c in f.calls("recv"):
+                fl = c.arg(3)
+                v = fl.val if fl is not None else None
+                rep.check(v == 0, "N1", "recv flags in %s" % f.name, c.where,
+                          "recv() is asked for the stream's next bytes and nothing else: flags must be 0 (found %s; MSG_OOB=1, MSG_PEEK=2 would deliver other bytes or the same bytes twice)" % v,
+                          function=f.name, construct="recv-flags")
 
 
 def errno_atoms(f):
@@ -274,6 +283,12 @@ def n2_n3(prog, rep, up, L):
     for k, b, succ in ks:
         if succ is not None and (succ == rb or rb in f.reach_from(b.id, stop=()) and _edge_reaches(f, succ, rb)):
             got.add(k)
+    neg = [b for b in f.blocks.values() if b.cond is not None and len(b.succs) == 2 and any(
+        Lx == ("*", ("call", "__errno_location")) and Rx[0] == "c" and opx not in ("==",) for opx, Lx, Rx, _, _ in cond_atoms(b.cond, True))
+        and b.succs[0] is not None and (b.succs[0] == rb or _edge_reaches(f, b.succs[0], rb))]
+    rep.check(not neg, "N2", "%s: only equalities of errno lead to the re-arm" % f.name, (neg[0].cond.where if neg else f.loc),
+              "a test of errno other than `errno == K` has its true edge leading to the re-registration: every error but one is then retried for ever",
+              function=f.name, construct="wouldblock-polarity")
     rep.check(got == WOULDBLOCK[up], "N2", "%s would-block set" % f.name, f.loc,
               "errno values routed to the re-arm: %s; required exactly %s (EAGAIN/EWOULDBLOCK=11, EINTR=4, ECONNABORTED=103)" % (sorted(got), sorted(WOULDBLOCK[up])),
               function=f.name, construct="wouldblock")
